@@ -269,6 +269,14 @@ var extremeNums = []any{1.7976931348623157e308, -1.7976931348623157e308, 5e-324,
 func (g *G) hostileCtx(v vocab) *HCtx {
 	key := pickOf(g, "ctxKey", append([]string{"x"}, v.params...))
 	c := &HCtx{}
+	for _, p := range v.params {
+		if p == "l" && g.chance("ctxBigList", 35) {
+			// a large list for the list parameter of the model's conditions, the other parameters well-typed
+			c.ListN = pickOf(g, "ctxBigListN", []int{200, 1000, 100000})
+			c.Fields = map[string]any{"x": pickOf(g, "ctxBigX", []any{1.0, 1e18, -1.0}), "s": "a", "m": map[string]any{"a": "b"}, "ip": "10.0.0.1"}
+			return c
+		}
+	}
 	switch g.n("ctxKind", 0, 6) {
 	case 0, 1:
 		c.Nest = []Nest{{Key: key, Depth: g.depth("ctxDepth", 2, 2000, 2000), Shape: pickOf(g, "ctxShape", []string{"struct", "list", "alt"}), Width: g.n("ctxWidth", 0, 2), Leaf: 1.0}}
@@ -307,9 +315,16 @@ func (g *G) plainCtx(v vocab) *HCtx {
 	}
 	c := &HCtx{Fields: map[string]any{}}
 	for _, p := range v.params {
-		if p == "s" {
+		switch p {
+		case "s":
 			c.Fields[p] = pickOf(g, "ctxS", []string{"a", "b"})
-		} else {
+		case "l":
+			c.Fields[p] = []any{1.0, 2.0, 3.0}
+		case "m":
+			c.Fields[p] = map[string]any{"a": "b"}
+		case "ip":
+			c.Fields[p] = "10.0.0.1"
+		default:
 			c.Fields[p] = float64(g.n("ctxX", 0, 20))
 		}
 	}
@@ -319,6 +334,26 @@ func (g *G) plainCtx(v vocab) *HCtx {
 // ---- models ----
 
 var celHostile = []func(g *G) HS{
+	func(g *G) HS {
+		// nested comprehensions over the list parameter: |l|^depth steps, bounded only by the
+		// evaluation cost limit / the interrupt check
+		n := g.n("celNestL", 2, 4)
+		vars := []string{"a", "b", "c", "d"}
+		macro := pickOf(g, "celMacro", []string{"all", "exists", "exists_one", "all"})
+		var b strings.Builder
+		for i := 0; i < n; i++ {
+			b.WriteString("l." + macro + "(" + vars[i] + ", ")
+		}
+		b.WriteString(strings.Join(vars[:n], " + ") + " < x")
+		b.WriteString(strings.Repeat(")", n))
+		return lit(b.String())
+	},
+	func(g *G) HS {
+		return lit(pickOf(g, "celListHeavy", []string{
+			"l.map(a, l.map(b, a * b)).size() > x", "l.filter(a, l.exists(b, a == b + x)).size() > 0", "l.all(a, a in l)", "l.map(a, string(a)).all(t, t.size() < x)",
+			"m.all(k, m.all(j, k != j || m[k] == s))", "l.exists(a, l.exists(b, l.exists(c, a + b + c == x)))",
+		}))
+	},
 	func(g *G) HS {
 		n := pickOf(g, "celParen", []int{10, 50, 200, 250, 251, 1000, 5000, 100000})
 		return HS{Pre: "(", PreN: n, Mid: "x < 10", Suf: ")", SufN: n}
